@@ -419,7 +419,33 @@ def main():
                 rep.harness_error("counter-database of %s did not reproduce on real SQLite (a leaf model is wrong): expected %r got %r rows %r" % (
                     name, r["expected"], r["got"], r["rows"]))
     rep.note("SQL encoding validated against real SQLite on %d model-generated databases (a selected and a rejected note per shape)" % validated)
+    # rows -> domain notes (CrossHair on the real SQLRepo.get_notes_by_query with a stub session / converter)
+    from vlib import xh
+    from vlib.driver import handle_xh
+    H = os.path.join(os.path.dirname(os.path.abspath(__file__)), "c03_h.py")
+    rep.describe(functions=["zorg.storage.sql._repo.SQLRepo.get_notes_by_query/_get_page/_record_seen_page", "zorg.shared.common.get_only_item"],
+                 stubs=["get_notes_by_query: the session yields up to 3 of 4 rows (2 pages, one ZID on both), the page converter returns the "
+                        "row's domain page, blocks hang off H1..H4"])
+    res = xh.run_all([xh.Cond(H, "rows_to_notes", timeout=120, meta={"family": "rows"}),
+                      xh.Cond(H, "rows_to_notes", timeout=30, twin=True, meta={"family": "twin"})])
+    handle_xh(rep, res, replay_rows)
     sys.exit(rep.finish())
+
+
+def replay_rows(name, args, kwargs, meta):
+    """real index: two real pages sharing a ZID, `db create`, real get_notes_by_query through a real session"""
+    from zorg.domain.models import WhereAndFilter, WhereOrFilter
+    from zorg.storage.sql import SQLSession
+    with zreal.TempZdir("c03g") as z:
+        (z / "d").mkdir()
+        (z / "a.zo").write_text("# a\n\n- 240101#01 one #x\n- 240101#02 two #x\n")
+        (z / "d" / "b.zo").write_text("# b\n\n- 240101#01 three #x\n- 240202#01 four #x\n")
+        zreal.create_db(z)
+        with SQLSession(z, zreal.db_url(z)) as s:
+            got = s.repo.get_notes_by_query(WhereOrFilter([WhereAndFilter(areas={"x"})]))
+        pairs = sorted((str(n.file_path), n.zid, n.body.split()[1]) for n in got)
+    want = [("a.zo", "240101#01", "one"), ("a.zo", "240101#02", "two"), ("d/b.zo", "240101#01", "three"), ("d/b.zo", "240202#01", "four")]
+    return pairs != sorted(want), {"summary": "get_notes_by_query over two pages sharing a ZID returns %r, expected %r" % (pairs, sorted(want))}
 
 
 def control(rep):
